@@ -136,6 +136,13 @@ func TestC02(t *testing.T) {
 		}
 		synctest.Test(t, func(t *testing.T) { c02Run(t, run, sc) })
 	}
+	for k := 0; k < run.N(4, 80); k++ {
+		desc := map[string]any{"kind": "slow-first-probes", "idx": k}
+		if !run.Mine(n+6000+k, desc) {
+			continue
+		}
+		synctest.Test(t, func(t *testing.T) { c02SlowFirstProbes(t, run, k, desc) })
+	}
 	if desc := map[string]any{"kind": "redeploys-under-load"}; run.Mine(n+5000, desc) {
 		c02Load(t, run, desc)
 	}
@@ -148,6 +155,64 @@ func TestC02(t *testing.T) {
 		}
 		synctest.Test(t, func(t *testing.T) { overlapDeploys(t, run, k, run.Rand(n+k)) })
 	}
+}
+
+// c02SlowFirstProbes: the new targets are healthy and answer every request, but their first one to
+// three health probes are answered only after the health-check timeout (a container still warming
+// up); later probes are answered at once. Requests keep arriving every 20ms from before the
+// redeploy until well after it: each is answered by a target.
+func c02SlowFirstProbes(t *testing.T, run *Run, idx int, desc any) {
+	w := NewWorld(t, WorldOpt{})
+	defer w.Close()
+	run.Eval()
+	to := DefTO
+	to.HealthCheckConfig.Interval = 200 * time.Millisecond
+	to.HealthCheckConfig.Timeout = 1100 * time.Millisecond // not a multiple of the interval: no timeout shares its instant with a tick
+	nslow := 1 + idx%3
+	w.AddTarget("sfp-old:80", nil)
+	var names []string
+	for i := 0; i < 1+idx%2; i++ {
+		name := fmt.Sprintf("sfp%d-new%d:80", idx%5, i)
+		names = append(names, name)
+		w.AddTarget(name, func(n int, at time.Duration) ProbeAct {
+			if n < nslow {
+				return ProbeAct{Status: 200, Delay: 1500*time.Millisecond + OffTarget}
+			}
+			return ProbeAct{Status: 200}
+		})
+	}
+	if c := w.Deploy("svc", []string{"sfp-old:80"}, DefSO, to, 5*time.Second, time.Second); c.Err != "" {
+		run.Inconclusive("setup failed: %s", c.Err)
+		return
+	}
+	t0 := w.Now() + time.Second
+	var dep *CmdRec
+	w.At(t0, func() { dep = w.Deploy("svc", names, DefSO, to, 20*time.Second, time.Second) })
+	for k := 0; k < 500; k++ {
+		w.GoReq(t0-200*time.Millisecond+time.Duration(k)*20*time.Millisecond+OffArrival, Req{ID: fmt.Sprintf("p%d", k), Host: "c02.example", Path: "/x"})
+	}
+	w.Wait()
+	if dep == nil || dep.Err != "" || dep.Panic != "" {
+		run.Inconclusive("the redeploy did not succeed: %+v", dep)
+		return
+	}
+	for _, r := range w.RespLog() {
+		if r.Status != 200 || r.Target == "" {
+			run.Violate(fmt.Sprintf("error-status:slow-first-probes:%d", r.Status), fmt.Sprintf("request %s sent at %v got status=%d target=%q err=%q; the service was redeployed at %v (returned %v) onto healthy targets whose first %d probes were answered only after the health-check timeout", r.ID, r.Sent, r.Status, r.Target, r.Err, dep.Issue, dep.Ret, nslow), desc, func() []string { return w.Trace(120) })
+			return
+		}
+	}
+	if os.Getenv("VERIF_DEBUG_SFP") != "" {
+		for _, n := range names {
+			for _, p := range w.Target(n).ProbeLog() {
+				if p.Start < t0+3*time.Second {
+					fmt.Fprintf(os.Stderr, "SFP %s probe n=%d start=%v end=%v ended=%v status=%d accepted=%v\n", n, p.N, p.Start, p.End, p.Ended, p.Status, p.Accepted)
+				}
+			}
+		}
+		fmt.Fprintf(os.Stderr, "SFP deploy issue=%v ret=%v\n", dep.Issue, dep.Ret)
+	}
+	run.Class(fmt.Sprintf("slow-first-probes|%d|targets=%d", nslow, len(names)))
 }
 
 // c02Load: the same property under real concurrency (real time, no sockets on the client side): a
